@@ -202,7 +202,12 @@ func (g *pathGen) simple(s *pstate, st ast.Stmt) {
 				continue
 			}
 			if i < len(v.Lhs) {
-				if _, ok := v.Lhs[i].(*ast.SelectorExpr); ok {
+				_, isSel := v.Lhs[i].(*ast.SelectorExpr)
+				if ix, ok := v.Lhs[i].(*ast.IndexExpr); ok {
+					// an element of a field (p.fsms[i] = nil)
+					_, isSel = ix.X.(*ast.SelectorExpr)
+				}
+				if isSel {
 					s.calls = append(s.calls, "set "+exprString(g.fset, v.Lhs[i])+"="+exprString(g.fset, r))
 				} else if id, ok := v.Lhs[i].(*ast.Ident); ok {
 					if _, isCall := r.(*ast.CallExpr); !isCall {
@@ -351,6 +356,7 @@ func (g *pathGen) walk(stmts []ast.Stmt, s pstate, ex pexits, done func(pstate))
 				all = append(all, "case "+tag+exprString(g.fset, x))
 			}
 		}
+		var before []string // the cases in front of this one did not apply (a switch takes the first that does)
 		for _, c := range v.Body.List {
 			cc := c.(*ast.CaseClause)
 			b := s.clone()
@@ -363,7 +369,13 @@ func (g *pathGen) walk(stmts []ast.Stmt, s pstate, ex pexits, done func(pstate))
 				for _, x := range cc.List {
 					ts = append(ts, tag+exprString(g.fset, x))
 				}
+				if v.Tag == nil {
+					for _, t := range before {
+						b.guards = append(b.guards, pguard{t, false})
+					}
+				}
 				b.guards = append(b.guards, pguard{"case " + strings.Join(ts, ","), true})
+				before = append(before, "case "+strings.Join(ts, ","))
 			}
 			sex := pexits{ret: ex.ret, loop: ex.loop, brk: next}
 			g.walk(cc.Body, b, sex, next)
@@ -453,20 +465,31 @@ func genPaths(pkg *packages.Package) {
 	fns := map[string]bool{"openSent": true, "openConfirm": true, "established": true, "handleNotificationInErr": true,
 		"drainAndResetHoldTimer": true, "sendOpenAndSetHoldTimer": true, "cleanupConnAndReader": true, "sendNotification": true,
 		"sendKeepAlive": true, "startReading": true, "idle": true, "connect": true, "active": true, "dialPeer": true, "closeDialedConn": true, "WriteUpdate": true, "read": true, "run": true, "cleanup": true, "stop": true}
+	peerFns := map[string]bool{"handleError": true, "enableFSM": true, "disableFSM": true, "updateStartupDelay": true,
+		"handleStateTransition": true, "sendTransitionToFSM": true, "stop": true, "start": true}
 	var all []codePath
 	for _, file := range pkg.Syntax {
-		if filepath.Base(pkg.Fset.Position(file.Pos()).Filename) != "fsm.go" {
+		base := filepath.Base(pkg.Fset.Position(file.Pos()).Filename)
+		if base != "fsm.go" && base != "peer.go" {
 			continue
 		}
 		for _, decl := range file.Decls {
 			fd, ok := decl.(*ast.FuncDecl)
-			if !ok || fd.Body == nil || fd.Recv == nil || !fns[fd.Name.Name] {
+			if !ok || fd.Body == nil || fd.Recv == nil {
 				continue
 			}
-			if rt := exprString(pkg.Fset, fd.Recv.List[0].Type); rt != "*fsm" && !(rt == "*updateMessageWriter" && fd.Name.Name == "WriteUpdate") {
+			rt := exprString(pkg.Fset, fd.Recv.List[0].Type)
+			name := fd.Name.Name
+			switch {
+			case base == "fsm.go" && rt == "*fsm" && fns[name]:
+			case base == "fsm.go" && rt == "*updateMessageWriter" && name == "WriteUpdate":
+			case base == "peer.go" && rt == "*peer" && peerFns[name]:
+				// the peer manager's helpers are listed under peer.<name> (run / stop exist on both types)
+				name = "peer." + name
+			default:
 				continue
 			}
-			g := &pathGen{fset: pkg.Fset, fn: fd.Name.Name, closures: map[string]*ast.FuncLit{}}
+			g := &pathGen{fset: pkg.Fset, fn: name, closures: map[string]*ast.FuncLit{}}
 			s := pstate{lastDef: map[string]string{}, retVar: map[string]string{}, retErr: map[string]string{}}
 			ex := pexits{
 				ret:  func(s2 pstate, results []ast.Expr) { s2.calls = append(s2.calls, s2.defers...); g.emit(s2, "return", g.retString(s2, results)...) },
@@ -476,7 +499,7 @@ func genPaths(pkg *packages.Package) {
 			g.walk(fd.Body.List, s, ex, func(s2 pstate) { s2.calls = append(s2.calls, s2.defers...); g.emit(s2, "return") })
 			all = append(all, g.out...)
 			for k, fl := range g.goClosures {
-				gg := &pathGen{fset: pkg.Fset, fn: fmt.Sprintf("%s.go%d", fd.Name.Name, k+1), closures: map[string]*ast.FuncLit{}}
+				gg := &pathGen{fset: pkg.Fset, fn: fmt.Sprintf("%s.go%d", name, k+1), closures: map[string]*ast.FuncLit{}}
 				s := pstate{lastDef: map[string]string{}, retVar: map[string]string{}, retErr: map[string]string{}}
 				ex := pexits{
 					ret:  func(s2 pstate, results []ast.Expr) { s2.calls = append(s2.calls, s2.defers...); gg.emit(s2, "return", gg.retString(s2, results)...) },
